@@ -409,6 +409,8 @@ def write_replay(prop, tier, seed, f, result, ps, kind):
             ', '.join(ps['failed_files']), result['evaluations'])
     if kind == 'correspondence-broken':
         doc['note'] = 'model and implementation disagree on this case but the property predicate holds on it; no failing input found in %d cases' % result['evaluations']
+    if HOOKS_STATUS.get('missing'):
+        doc['hooks'] = 'the verif-tagged hooks did not compile against this tree, component-level operations were not observed: ' + HOOKS_STATUS['missing']
     with open(path, 'w') as fh:
         json.dump(doc, fh, indent=1)
     return os.path.relpath(path, VERIF)
@@ -509,5 +511,33 @@ def replay(path):
     return 1
 
 
+def guarded_main():
+    """a check that cannot be carried out (the translator, the model build or the harness build
+    fails against the current tree) no longer shows the property: report that, with the error as
+    the replay, instead of dying with a traceback"""
+    try:
+        return main()
+    except Exception as e:
+        import traceback
+        tb = traceback.format_exc()
+        if len(sys.argv) >= 2 and re.match(r'C\d\d$', sys.argv[1]):
+            prop = sys.argv[1]
+            tier = sys.argv[2] if len(sys.argv) > 2 else 'quick'
+            os.makedirs(os.path.join(VERIF, 'replays'), exist_ok=True)
+            h = hashlib.sha256((prop + str(e)).encode()).hexdigest()[:12]
+            path = os.path.join(VERIF, 'replays', '%s-%s.json' % (prop, h))
+            with open(path, 'w') as fh:
+                json.dump({'property': prop, 'tier': tier, 'seed': int(os.environ.get('VERIF_SEED', '1')),
+                           'kind': 'check-could-not-run',
+                           'note': 'the correspondence between the model and the current tree could not be established: '
+                                   'the translator, the model build or the harness build failed; no failing input was searched for',
+                           'error': str(e)[-6000:], 'traceback': tb[-4000:]}, fh, indent=1)
+            print('VIOLATION property=%s replay=%s no-failing-input-found' % (prop, os.path.relpath(path, VERIF)))
+            print('%s %s: check could not run: %s' % (prop, tier, str(e).splitlines()[0][:300] if str(e) else repr(e)))
+            return 1
+        sys.stderr.write(tb)
+        return 2
+
+
 if __name__ == '__main__':
-    sys.exit(main())
+    sys.exit(guarded_main())
